@@ -176,7 +176,10 @@ pub fn instance_ids(e: &REntityType) -> Vec<String> {
 
 pub fn gen_uid_of(t: &mut Tape, s: &RSchema, ty: &str) -> Uid {
     let ids = s.et(ty).map(instance_ids).unwrap_or_else(|| vec!["0".into()]);
-    Uid { ty: ty.to_string(), id: ids[t.upto(ids.len())].clone() }
+    // the last id of a non-enumerated type never has a record (a dangling reference): rarer in dense mode
+    let dense = DENSE_WORLD.with(|c| c.get()) && s.et(ty).map(|e| e.enum_ids.is_none()).unwrap_or(false) && ids.len() == 4;
+    let i = if dense { t.weighted(&[4, 4, 4, 1]) } else { t.upto(ids.len()) };
+    Uid { ty: ty.to_string(), id: ids[i].clone() }
 }
 
 pub fn gen_value_of(t: &mut Tape, ty: &RType, s: &RSchema, depth: usize) -> V {
@@ -219,7 +222,8 @@ pub fn gen_value_of(t: &mut Tape, ty: &RType, s: &RSchema, depth: usize) -> V {
 pub fn gen_attr_values(t: &mut Tape, attrs: &RAttrs, s: &RSchema, depth: usize) -> BTreeMap<String, V> {
     let mut m = BTreeMap::new();
     for (k, (ty, req)) in attrs {
-        if *req || t.coin() {
+        let dense = DENSE_WORLD.with(|c| c.get());
+        if *req || if dense { t.bool_p(4, 5) } else { t.coin() } {
             m.insert(k.clone(), gen_value_of(t, ty, s, depth));
         }
     }
@@ -240,7 +244,7 @@ pub fn gen_world(t: &mut Tape, s: &RSchema) -> World {
                 }
             }
             None => {
-                let n = t.weighted(&[1, 3, 4, 3]);
+                let n = if DENSE_WORLD.with(|c| c.get()) { t.weighted(&[0, 1, 4, 5]) } else { t.weighted(&[1, 3, 4, 3]) };
                 for i in 0..n {
                     order.push(Uid { ty: e.name.clone(), id: i.to_string() });
                 }
@@ -262,7 +266,7 @@ pub fn gen_world(t: &mut Tape, s: &RSchema) -> World {
                 }
             }
             for p in order.iter().skip(i + 1) {
-                if e.member_of.contains(&p.ty) && t.bool_p(2, 5) {
+                if e.member_of.contains(&p.ty) && if DENSE_WORLD.with(|c| c.get()) { t.bool_p(3, 5) } else { t.bool_p(2, 5) } {
                     d.parents.insert(p.clone());
                 }
             }
@@ -380,6 +384,11 @@ thread_local! {
     pub static COMPOUND_DEPTHS_DIFFER: std::cell::Cell<bool> = const { std::cell::Cell::new(false) };
     /// level validation rejects every dereference (`in`, `has`, attribute or tag access) of an entity *literal* at every
     /// level; the level and manifest checks ask the generator not to spend half of its policies on that
+    /// set when a policy tests one subject for membership in an access path and in an extension of that path
+    pub static NESTED_IN_TARGETS: std::cell::Cell<bool> = const { std::cell::Cell::new(false) };
+    /// denser stores (more instances, optional attributes mostly present, more parent edges): the slicing checks need data
+    /// to actually flow through the access paths of the policies
+    pub static DENSE_WORLD: std::cell::Cell<bool> = const { std::cell::Cell::new(false) };
     pub static LEVEL_FRIENDLY: std::cell::Cell<bool> = const { std::cell::Cell::new(false) };
 }
 
@@ -701,6 +710,9 @@ impl<'a> TGen<'a> {
                             // one (`x in r.team || x in r.team.parent`): the requested ancestors of `x` then form a trie with
                             // a requested node that is also an inner node
                             let ext: Vec<usize> = targets.iter().copied().filter(|i| is_proper_prefix(&p.e, &self.paths[*i].e)).collect();
+                            if !ext.is_empty() {
+                                NESTED_IN_TARGETS.with(|c| c.set(true));
+                            }
                             let pool = if ext.is_empty() { &targets } else { &ext };
                             let p2 = self.paths[pool[t.upto(pool.len())]].clone();
                             guards.extend(p2.guards.clone());
